@@ -189,7 +189,7 @@ def harnesses(tier):
     T = 600 if q else 900
     hs = []
     for cls in ('monoidal', 'rigid'):
-        k, w, a, L = (1, 2, 1, 2) if q else (2, 2, 1, 2)
+        k, w, a, L = (1, 2, 1, 2) if q else (1, 2, 2, 2)
         hs.append(H("monoidalF_" + cls, monoidalF,
                     dict(cls=cls, k=k, w=w, a=a, L=L), FUNCS,
                     covers=["functor", "composable", "callable", "dict"],
